@@ -32,7 +32,9 @@ RULE = (
     "with a pair within 5 % on each side of its cutoff; distinct = SHA-1."
 )
 ASSUMPTIONS = [
-    "comment is a single line (no \\n / \\r), as the XYZ format requires",
+    "comment is a single line (no \\n); a carriage return inside the comment "
+    "is kept for the string route and skipped for the file route, where "
+    "text-mode reading treats it as a line break by platform convention",
     "radii: pinned copy of the table shipped with the pinned commit",
 ]
 TRUSTED = ["math.dist", "vp/geom.py pinned radii"]
@@ -68,7 +70,7 @@ def draw_comment(tp):
     chars = []
     for _ in range(n):
         c = tp.below(0x3000)
-        if c in (10, 13) or 0xD800 <= c <= 0xDFFF:
+        if c == 10 or 0xD800 <= c <= 0xDFFF:
             c = 32
         chars.append(chr(c))
     return "".join(chars)
@@ -102,7 +104,8 @@ def gen_conn(data: bytes):
             "coords": [list(c) for c in coords],
             "quat": list(G.draw_quat(tp)),
             "shift": list(G.draw_vec(tp, tp.pick([50.0, 1e3, 1e5, 9.9e5]))),
-            "perm": tp.shuffle(range(n))}
+            "perm": tp.shuffle(range(n)),
+            "custom_first": tp.pick([None, None, 0.9, 1.0, 1.5])}
 
 
 def gen(data: bytes):
@@ -140,7 +143,7 @@ def check_roundtrip(ctx, case):
     n = len(elems)
     if n < 1 or len(coords) != n:
         raise HarnessError("round trip: n >= 1")
-    if comment is not None and ("\n" in comment or "\r" in comment):
+    if comment is not None and "\n" in comment:
         raise HarnessError("comment must be one line")
     if any(not math.isfinite(v) or abs(v) > 1e6 for r in coords for v in r):
         raise HarnessError("coordinate out of range")
@@ -180,7 +183,7 @@ def check_roundtrip(ctx, case):
             fh.write(text)
         import locale
         if (locale.getpreferredencoding(False) or "").lower().replace(
-                "-", "") == "utf8":
+                "-", "") == "utf8" and "\r" not in (comment or ""):
             with guard(f"C20/roundtrip/from_xyz_file/{tag}/comment-{ck}"):
                 back2 = Geometry.from_xyz_file(path)
             compare(back2, "from_xyz_file")
@@ -229,8 +232,17 @@ def check_connectivity(ctx, case):
     from stereomolgraph import MolGraph
     from stereomolgraph.coords import BondsFromDistance
 
+    factor = case.get("custom_first")
+
     def observe(es, cs, stage):
         arr = np.array(cs, dtype=float).reshape(-1, 3)
+        if factor:
+            # an instance with its own criterion, used first, must not
+            # influence what the default criterion answers afterwards
+            with guard(f"C20/connectivity/{stage}/custom-instance"):
+                BondsFromDistance(
+                    lambda pair: float(factor) * sum(
+                        G.RADII[int(a)] for a in pair)).array(arr, list(es))
         with guard(f"C20/connectivity/{stage}/array"):
             mat = BondsFromDistance().array(arr, list(es))
         mat = [[int(x) for x in row] for row in mat]
